@@ -134,6 +134,24 @@ def run(ctx):
     for ops in ([("call", (1.5,)), ("min", (float("inf"),))], [("call", (1.5,)), ("max", (float("-inf"),))], [("min", (1e308,)), ("max", (-1e308,))],
                 [("call", (1e308,)), ("precision", (2,))], [("call", (5e-324,)), ("min", (1e-323,))]):
         cases.append(declcorr.ChainCase("float", list(ops)))
+    # value, then one bound, then the other — every small combination, both orders (a later check must not shadow an earlier one)
+    R = range(-2, 4)
+    for v in R:
+        for b1 in R:
+            for b2 in R:
+                cases.append(declcorr.ChainCase("int", [("call", (v,)), ("min", (b1,)), ("max", (b2,))]))
+                cases.append(declcorr.ChainCase("int", [("call", (v,)), ("max", (b1,)), ("min", (b2,))]))
+    for v in (0.0, 1.5, -1.0):
+        for b1 in (-1.0, 0.0, 1.0, 1.5, 2.0):
+            for b2 in (-1.0, 0.0, 1.0, 1.5, 2.0):
+                cases.append(declcorr.ChainCase("float", [("call", (v,)), ("min", (b1,)), ("max", (b2,))]))
+                cases.append(declcorr.ChainCase("float", [("call", (v,)), ("max", (b1,)), ("min", (b2,)), ("precision", (1,))]))
+    for v in ("", "ab", "abc"):
+        for a in (0, 1, 2, 3):
+            for b in (0, 1, 2, 3):
+                cases.append(declcorr.ChainCase("str", [("call", (v,)), ("len", (a, b))]))
+                cases.append(declcorr.ChainCase("str", [("call", (v,)), ("len", (a, ...)), ("alphabet", ("ab",))]))
+                cases.append(declcorr.ChainCase("str", [("call", (v,)), ("contains", ("b",)), ("len", (..., b))]))
     # every UUID family as a fixed value: v4, v1/v3/v5, and the non-RFC-4122 variants whose `.version` is None
     import uuid as _uuid
     for u in GC.U4 + GC.U_NOT4 + [_uuid.UUID(int=0), _uuid.UUID(int=2 ** 128 - 1), _uuid.UUID("00000000-0000-4000-0000-000000000000"),
